@@ -1,0 +1,74 @@
+// Copyright 2025 - See NOTICE file for copyright holders.
+//
+// Licensed under the Apache License, Version 2.0 (the "License");
+// you may not use this file except in compliance with the License.
+// You may obtain a copy of the License at
+//
+//     http://www.apache.org/licenses/LICENSE-2.0
+//
+// Unless required by applicable law or agreed to in writing, software
+// distributed under the License is distributed on an "AS IS" BASIS,
+// WITHOUT WARRANTIES OR CONDITIONS OF ANY KIND, either express or implied.
+// See the License for the specific language governing permissions and
+// limitations under the License.
+
+//go:build verif
+
+package simhook
+
+import (
+	"fmt"
+	"hash/fnv"
+	"sort"
+	"sync/atomic"
+)
+
+var mapOrder atomic.Pointer[func(n int, digest uint64, swap func(i, j int))]
+
+// SetMapOrder installs (or, with nil, removes) the simulator's choice of map
+// iteration orders: it is called with the number of keys, a digest of the
+// sorted keys and a swap function, and may permute the keys.
+func SetMapOrder(f func(n int, digest uint64, swap func(i, j int))) {
+	if f == nil {
+		mapOrder.Store(nil)
+		return
+	}
+	mapOrder.Store(&f)
+}
+
+// Keys returns the keys of m in an order that depends on nothing but the keys
+// and the installed order function: sorted by their printed form, then
+// permuted by the simulator. The simulator's instrumentation of a scratch copy
+// replaces `range m` over a map by `range simhook.Keys(m)`, so that the
+// runtime's random iteration order becomes a choice of the simulator.
+func Keys[K comparable, V any](m map[K]V) []K {
+	keys := make([]K, 0, len(m))
+	for k := range m {
+		keys = append(keys, k)
+	}
+	if len(keys) < 2 {
+		return keys
+	}
+	printed := make([]string, len(keys))
+	for i, k := range keys {
+		printed[i] = fmt.Sprint(k)
+	}
+	idx := make([]int, len(keys))
+	for i := range idx {
+		idx[i] = i
+	}
+	sort.Slice(idx, func(a, b int) bool { return printed[idx[a]] < printed[idx[b]] })
+	out := make([]K, len(keys))
+	for i, j := range idx {
+		out[i] = keys[j]
+	}
+	if f := mapOrder.Load(); f != nil {
+		h := fnv.New64a()
+		for _, j := range idx {
+			_, _ = h.Write([]byte(printed[j]))
+			_, _ = h.Write([]byte{0})
+		}
+		(*f)(len(out), h.Sum64(), func(i, j int) { out[i], out[j] = out[j], out[i] })
+	}
+	return out
+}
